@@ -110,10 +110,15 @@ type textEdit struct {
 }
 
 type inlCand struct {
-	obj  *types.Func
-	fd   *ast.FuncDecl
+	obj  *types.Func // nil for a local closure
+	sig  *types.Signature
+	fd   *ast.FuncDecl // for a local closure: synthesised from the literal (Name = the variable, Type, Body)
 	pkg  *packages.Package
 	file *ast.File
+	// local closure `f := func(…) … { … }` that is only ever called directly
+	lit  *ast.FuncLit
+	v    *types.Var
+	decl *ast.AssignStmt
 	// properties
 	hasDefer, hasRecover bool
 	callsCand            map[*types.Func]bool
@@ -247,7 +252,7 @@ func (in *inliner) candidates() map[*types.Func]*inlCand {
 				if fd.Type.TypeParams != nil {
 					continue
 				}
-				out[obj] = &inlCand{obj: obj, fd: fd, pkg: p, file: file, callsCand: map[*types.Func]bool{}}
+				out[obj] = &inlCand{obj: obj, sig: sig, fd: fd, pkg: p, file: file, callsCand: map[*types.Func]bool{}}
 			}
 		}
 	}
@@ -284,8 +289,105 @@ func (in *inliner) candidates() map[*types.Func]*inlCand {
 	return out
 }
 
+// closureCandidates: local closures `f := func(…) … { … }` (a definition statement of a block) whose variable is never
+// reassigned, never used as a value and only ever called directly, outside go / defer. Inlining such a closure at a
+// call site is the same source transformation as for a named helper; in addition the variables it captures must be
+// the ones visible under the same names at the call site (checked per call by captureCheck). Closures of the
+// reference tree (baseline_funcs.txt, `closure:` lines) are part of the reference and stay.
+func (in *inliner) closureCandidates() map[*types.Var]*inlCand {
+	out := map[*types.Var]*inlCand{}
+	for _, p := range in.w.Pkgs {
+		for _, file := range p.Syntax {
+			parent := map[ast.Node]ast.Node{}
+			var stack []ast.Node
+			ast.Inspect(file, func(n ast.Node) bool {
+				if n == nil {
+					stack = stack[:len(stack)-1]
+					return true
+				}
+				if len(stack) > 0 {
+					parent[n] = stack[len(stack)-1]
+				}
+				stack = append(stack, n)
+				return true
+			})
+			ast.Inspect(file, func(n ast.Node) bool {
+				as, ok := n.(*ast.AssignStmt)
+				if !ok || as.Tok != token.DEFINE || len(as.Lhs) != 1 || len(as.Rhs) != 1 {
+					return true
+				}
+				id, ok1 := as.Lhs[0].(*ast.Ident)
+				lit, ok2 := as.Rhs[0].(*ast.FuncLit)
+				if !ok1 || !ok2 || id.Name == "_" {
+					return true
+				}
+				if _, inBlock := parent[as].(*ast.BlockStmt); !inBlock {
+					return true
+				}
+				for q := parent[ast.Node(as)]; q != nil; q = parent[q] {
+					if fd, ok := q.(*ast.FuncDecl); ok {
+						if o, ok := p.TypesInfo.Defs[fd.Name].(*types.Func); ok && baselineClosures[funcShortName(o)+"\t"+id.Name] {
+							return true
+						}
+						break
+					}
+				}
+				v, ok := p.TypesInfo.Defs[id].(*types.Var)
+				if !ok {
+					return true
+				}
+				sig, ok := v.Type().(*types.Signature)
+				if !ok || sig.Variadic() {
+					return true
+				}
+				c := &inlCand{sig: sig, fd: &ast.FuncDecl{Name: id, Type: lit.Type, Body: lit.Body}, pkg: p, file: file, lit: lit, v: v, decl: as, callsCand: map[*types.Func]bool{}}
+				ast.Inspect(lit.Body, func(m ast.Node) bool {
+					switch x := m.(type) {
+					case *ast.DeferStmt:
+						c.hasDefer = true
+					case *ast.CallExpr:
+						if idn, ok := x.Fun.(*ast.Ident); ok && idn.Name == "recover" {
+							c.hasRecover = true
+						}
+					case *ast.FuncLit:
+						c.hasDefer = true // nested literals: leave alone
+					}
+					return true
+				})
+				if c.hasDefer || c.hasRecover {
+					return true
+				}
+				out[v] = c
+				return true
+			})
+			// every use must be the callee of a plain call
+			for id, o := range p.TypesInfo.Uses {
+				v, ok := o.(*types.Var)
+				if !ok || out[v] == nil {
+					continue
+				}
+				call, ok := parent[id].(*ast.CallExpr)
+				if !ok || call.Fun != ast.Expr(id) {
+					if parent[id] != nil { // an identifier of this file
+						delete(out, v)
+					}
+					continue
+				}
+				switch parent[call].(type) {
+				case *ast.GoStmt, *ast.DeferStmt:
+					delete(out, v)
+				}
+			}
+		}
+	}
+	return out
+}
+
 // inCycle: c reaches itself through candidate calls.
 func inCycle(c *inlCand, all map[*types.Func]*inlCand) bool {
+	if c.obj == nil {
+		return false
+	}
 	seen := map[*types.Func]bool{}
 	var walk func(f *types.Func) bool
 	walk = func(f *types.Func) bool {
@@ -311,9 +413,6 @@ type stackEntry struct{ n ast.Node }
 // Returns the edits per file and whether anything changed.
 func (in *inliner) round() (map[string][]textEdit, bool) {
 	cands := in.candidates()
-	if len(cands) == 0 {
-		return nil, false
-	}
 	edits := map[string][]textEdit{}
 	imports := map[string]map[string]string{} // file -> local name -> path to add
 	changed := false
@@ -448,6 +547,38 @@ func (in *inliner) round() (map[string][]textEdit, bool) {
 	}
 	refused := map[*types.Func]string{}
 	done := map[*types.Func]int{}
+	// local closures: same treatment, keyed by their variable
+	clos := in.closureCandidates()
+	closUses := map[*types.Var]int{}
+	for _, p := range in.w.Pkgs {
+		for _, o := range p.TypesInfo.Uses {
+			if v, ok := o.(*types.Var); ok && clos[v] != nil {
+				closUses[v]++
+			}
+		}
+	}
+	for v, c := range clos {
+		key := "closure " + v.Name() + "@" + in.w.Pos(c.decl.Pos())
+		if closUses[v] == 0 && in.inlined[key] > 0 {
+			file, a := in.rawOff(c.decl.Pos())
+			_, b := in.rawOff(c.decl.End())
+			src := in.src(file)
+			if keep := "; _ = " + v.Name(); strings.HasPrefix(string(src[b:]), keep) {
+				b += len(keep)
+			}
+			blank := []byte(string(src[a:b]))
+			for i, ch := range blank {
+				if ch != '\n' && ch != '\r' {
+					blank[i] = ' '
+				}
+			}
+			edits[file] = append(edits[file], textEdit{a, b, string(blank)})
+			deletedSpans[file] = append(deletedSpans[file], span{a, b})
+			changed = true
+			in.notes = append(in.notes, fmt.Sprintf("local closure %s (%s) is only ever called directly: inlined at its %d call site(s)", v.Name(), in.w.Pos(c.decl.Pos()), in.inlined[key]))
+			delete(clos, v)
+		}
+	}
 	// 3. call sites
 	for _, p := range in.w.Pkgs {
 		for _, file := range p.Syntax {
@@ -465,11 +596,118 @@ func (in *inliner) round() (map[string][]textEdit, bool) {
 					return true
 				}
 				var callee *types.Func
+				if fx, ok := call.Fun.(*ast.Ident); ok {
+					if v, ok := p.TypesInfo.Uses[fx].(*types.Var); ok && clos[v] != nil {
+						c := clos[v]
+						key := "closure " + v.Name() + "@" + in.w.Pos(c.decl.Pos())
+						if in.stuck[key] {
+							return true
+						}
+						// a literal that itself calls helpers still to be inlined waits for them
+						pending := false
+						ast.Inspect(c.lit.Body, func(m ast.Node) bool {
+							if id, ok := m.(*ast.Ident); ok {
+								if f, ok := p.TypesInfo.Uses[id].(*types.Func); ok && cands[f] != nil && !in.stuck[funcShortName(f)] {
+									pending = true
+								}
+								if v2, ok := p.TypesInfo.Uses[id].(*types.Var); ok && clos[v2] != nil && v2 != v {
+									pending = true
+								}
+							}
+							return true
+						})
+						if pending {
+							return true
+						}
+						ed, stmt, why := in.inlineCall(p, file, append([]ast.Node(nil), stack...), call, c, imports)
+						if why != "" {
+							if why != "busy" && !in.stuck[key] {
+								in.stuck[key] = true
+								in.notes = append(in.notes, fmt.Sprintf("local closure %s (%s) is analysed as written: %s", v.Name(), in.w.Pos(c.decl.Pos()), why))
+							}
+							return true
+						}
+						if busy[stmt] {
+							return true
+						}
+						for b := range busy {
+							if b.Pos() <= stmt.Pos() && stmt.End() <= b.End() || stmt.Pos() <= b.Pos() && b.End() <= stmt.End() {
+								return true
+							}
+						}
+						// the definition statement itself must not be inside the edited statement
+						if stmt.Pos() <= c.decl.Pos() && c.decl.End() <= stmt.End() {
+							return true
+						}
+						busy[stmt] = true
+						edits[fname] = append(edits[fname], ed)
+						if in.inlined[key] == 0 {
+							// the variable may be left without uses before it is removed in the next round
+							_, e := in.rawOff(c.decl.End())
+							if keep := "; _ = " + v.Name(); !strings.HasPrefix(string(in.src(fname)[e:]), keep) {
+								edits[fname] = append(edits[fname], textEdit{e, e, keep})
+							}
+						}
+						in.inlined[key]++
+						changed = true
+						return true
+					}
+				}
 				switch fx := call.Fun.(type) {
 				case *ast.Ident:
 					callee, _ = p.TypesInfo.Uses[fx].(*types.Func)
 				case *ast.SelectorExpr:
 					callee, _ = p.TypesInfo.Uses[fx.Sel].(*types.Func)
+				}
+				if callee != nil && cands[callee] == nil && callee.Pkg() == p.Types {
+					// a NEW call of a reference function that is a plain accessor (single `return E`), made from a
+					// reference function: seen through, so that `a.Index()` written for `a.idx` reads like the reference
+					// (the accessor itself stays). A new helper is inlined first and its calls are judged where they land.
+					if _, known := baselineFuncs[funcShortName(callee)]; known {
+						caller := ""
+						for i := len(stack) - 1; i >= 0; i-- {
+							if fd, ok := stack[i].(*ast.FuncDecl); ok {
+								if o, ok := p.TypesInfo.Defs[fd.Name].(*types.Func); ok {
+									caller = funcShortName(o)
+								}
+								break
+							}
+						}
+						_, callerKnown := baselineFuncs[caller]
+						_, off0 := in.rawOff(call.Pos())
+						for _, sp := range deletedSpans[fname] {
+							if off0 >= sp.a && off0 < sp.b {
+								callerKnown = false
+							}
+						}
+						if caller != "" && callerKnown && !baselineCalls[caller+"\t"+funcShortName(callee)] {
+							if ac := in.accessorCand(p, callee); ac != nil {
+								if stmt, _, _ := enclosingStmt(stack); stmt != nil && !busy[stmt] {
+									nested := false
+									for b := range busy {
+										if b.Pos() <= stmt.Pos() && stmt.End() <= b.End() || stmt.Pos() <= b.Pos() && b.End() <= stmt.End() {
+											nested = true
+										}
+									}
+									recv, okRecv := in.recvText(p, call, callee)
+									in.alias = map[*types.PkgName]string{}
+									if !nested && okRecv && in.captureCheck(p, file, call, ac, imports) == "" {
+										if ed, ok := in.exprForm(p, stack, stmt, call, ac, recv); ok {
+											busy[stmt] = true
+											edits[fname] = append(edits[fname], ed)
+											changed = true
+											key := "accessor " + funcShortName(callee)
+											if !in.stuck[key] {
+												in.stuck[key] = true
+												in.notes = append(in.notes, fmt.Sprintf("new calls of the reference accessor %s are read as the expression it returns", funcShortName(callee)))
+											}
+										}
+									}
+								}
+							}
+						}
+					}
+					return true
 				}
 				if callee == nil || !leaf[callee] {
 					return true
@@ -620,7 +858,7 @@ func (in *inliner) inlineCall(p *packages.Package, file *ast.File, stack []ast.N
 	if stmt == nil {
 		return textEdit{}, nil, "the call is not inside a statement"
 	}
-	sig := c.obj.Type().(*types.Signature)
+	sig := c.sig
 	nres := sig.Results().Len()
 
 	// receiver and arguments
@@ -2083,6 +2321,14 @@ func (in *inliner) captureCheck(p *packages.Package, callerFile *ast.File, call 
 					if _, at := scope.LookupParent(idn.Name, call.Pos()); at != obj {
 						why = "identifier " + idn.Name + " means something else at the call site"
 					}
+				} else if c.lit != nil && par != nil && obj.Pkg() == p.Types && (obj.Pos() < c.lit.Pos() || obj.Pos() >= c.lit.End()) {
+					// a variable captured by the literal: the call site must see the same variable under that name
+					if vv, isVar := obj.(*types.Var); isVar && vv.IsField() {
+						return true
+					}
+					if _, at := scope.LookupParent(idn.Name, call.Pos()); at != obj {
+						why = "captured variable " + idn.Name + " is not the one visible at the call site"
+					}
 				}
 			}
 			return true
@@ -2101,9 +2347,6 @@ func normaliseHelpers(w *World, repo string, overlay map[string][]byte, extraEnv
 	in := &inliner{w: w, overlay: map[string][]byte{}, stuck: map[string]bool{}, inlined: map[string]int{}}
 	for k, v := range overlay {
 		in.overlay[k] = v
-	}
-	if len(in.candidates()) == 0 {
-		return w, overlay
 	}
 	cur := w
 	for round := 0; round < 12; round++ {
